@@ -360,8 +360,16 @@ PROPS = {
             {"name": "lockorder", "harness": "locks", "driver": "locks", "quick_cases": 70, "thorough_cases": 1000,
              "nontrivial": lambda lines: any(l.startswith("pair") and l.split()[1] != l.split()[2] for l in lines),
              "judge": pattern_judge, "timeout": 3000},
+            # write-stall wait: committers inside the real WriteStallController::check advanced from pause point to pause point
+            # against stall / clear / signal / shutdown; "blocked" is observed exactly (hand-polled future, waker not called)
+            {"name": "stallwait", "harness": "stall", "driver": "stall", "quick_cases": 1500, "thorough_cases": 60000,
+             "nontrivial": lambda lines: any(l.startswith("await") for l in lines) and any(l in ("clear", "signal", "shutdown") for l in lines)},
         ],
-        "rule": "the real CommitPipeline over a mock environment under controlled schedules (as C05) with up to 14 commits per "
+        "rule": "(stallwait) 3 committers in WriteStallController::check, 8-30 (thorough 8-60) steps per case over register / read / "
+                "await of a committer and stall / clear / signal / shutdown of the environment, half of them the natural next step "
+                "of a random committer, 8% possibly inapplicable; every step's outcome (reg, wait/ok/err, woken/blocked, noop) "
+                "compared with the model, and `blocked` with the specification (only while a signal is owed or the condition "
+                "holds). (overflow) the real CommitPipeline over a mock environment under controlled schedules (as C05) with up to 14 commits per "
                 "case and a high rate of injected WAL/apply failures, so that failed batches pile up behind unapplied ones and "
                 "permits run out; every step is compared with the model, a thread that would block on the semaphore is observed "
                 "through available_permits; a panic or a call that does not return within 5 s is a violation; the drain at the "
@@ -369,7 +377,10 @@ PROPS = {
         "assumptions": [
             "liveness is checked as 'the deterministic drain returns every call' per explored schedule; fairness of the tokio scheduler "
             "and real-time starvation are not modelled (partial)",
-            "write stalls, TaskManager wake-ups and close() are not yet in the model: their hang-freedom is not claimed by the theorems",
+            "the write-stall wait is modelled at the level of the controller (generation reading of tokio's Notify: a Notified future "
+            "created before a notify_waiters call is woken by it — trusted); that the flush / compaction / close paths call "
+            "signal_work_done / signal_shutdown after every change is observed by the store-level streams of C01/C06/C15, not proved",
+            "TaskManager wake-ups are not in the model: their hang-freedom is not claimed by the theorems",
         ],
         "trusted_base": ["modelled, not verified: CommitPipeline (incl. the permit-with-batch flow control), tokio Semaphore semantics",
                          "the schedule controller (harness/src/sched.rs)"],
